@@ -16,7 +16,7 @@ def _registry_shape(result):
 
 
 # ---- _update_registry -------------------------------------------------------------------------------------------
-c = contract(f"{E}:ExceptionsEmitter._update_registry", props=["C11"], types={"registry_path": "str", "client_name": "str", "status_codes": "list"},
+c = contract(f"{E}:ExceptionsEmitter._update_registry", props=["C11", "C06"], types={"registry_path": "str", "client_name": "str", "status_codes": "list"},
              int_sets=["all_codes"], track_calls=True,
              nothrow_calls=["os.path.exists", "open", "json.load", "json.dump"],
              dependency_post={"json.load": _registry_shape})
@@ -44,7 +44,7 @@ def ur_covers(self, registry_path, client_name, status_codes, old, result):
 
 
 # ---- _is_shared_core ------------------------------------------------------------------------------------------------
-c = contract(f"{E}:ExceptionsEmitter._is_shared_core", props=["C11"], types={"core_dir": "str"},
+c = contract(f"{E}:ExceptionsEmitter._is_shared_core", props=["C11", "C06"], types={"core_dir": "str"},
              nothrow_calls=["Path", "resolve"])
 
 @c.requires(typing=True)
@@ -61,7 +61,7 @@ def isc_by_names(self, core_dir, client_package_name, result):
 
 
 # ---- emit ----------------------------------------------------------------------------------------------------------------
-c = contract(f"{E}:ExceptionsEmitter.emit", props=["C11"], types={"output_dir": "str"}, track_calls=True,
+c = contract(f"{E}:ExceptionsEmitter.emit", props=["C11", "C06"], types={"output_dir": "str"}, track_calls=True,
              nothrow_calls=["os.path.join", "RenderContext", "set_current_file", "render_imports", "join", "open", "write", "sort"],
              abstract_unsupported=True, tracked_names=["_update_registry", "_generate_for_codes", "_is_shared_core", "all_codes"])
 
